@@ -211,12 +211,15 @@ NgCase(p) ==
   IN FontCaseOf(<<"ng", n, place, p[4], p[5], p[6]>>, NgRecs(n, place, p[4], p[5]), 0, hf, nhm,
                 Pick(LsbPolSeq(hf), mix \div 4), Bundles[bu], Pick(CollModes, mix \div 3), Pick(ZLens, mix))
 
-\* every glyph count of 0 .. 130 once, the only explicit bounding box on the LAST glyph; the case also
+\* every glyph count of 0 .. 130 (thorough: 0 .. 300) once, the only explicit bounding box on the LAST glyph; the case also
 \* carries the lemma about the length rule itself (n = 0 has no font: lemma only)
 BmCase(n) ==
   LET recs == NgRecs(n, "last", IF n % 2 = 0 THEN "comp" ELSE "simple", IF n % 3 = 0 THEN "dot" ELSE "empty")
       fc == FontCaseOf(<<"bm", n>>, recs, 0, 0, n, "none", Bundles[1], "single", 13)
-  IN IF n = 0 THEN [ok |-> BitmapLenRule(0), json |-> [kind |-> "lemma", id |-> <<"bm", 0>>]]
+  IN IF n = 0 THEN [ok |-> /\ BitmapLenRule(0)
+                           /\ \A m \in {65503, 65504, 65505, 65535} : BitmapLenArith(m)
+                           /\ BitmapLen(65504) = 8188 /\ BitmapLen(65505) = 8192 /\ BitmapLen(65535) = 8192,
+                    json |-> [kind |-> "lemma", id |-> <<"bm", 0>>]]
      ELSE [ok |-> BitmapLenRule(n) /\ fc.ok, json |-> fc.json]
 
 \* glyph with the given contour sizes and instruction length
@@ -390,7 +393,7 @@ Init ==
      \/ c \in TripCases
      \/ FontInit
      \/ NgInit
-     \/ c \in {<<"bm", n>> : n \in 0 .. 130}
+     \/ c \in {<<"bm", n>> : n \in 0 .. (IF Quick THEN 130 ELSE 300)}
      \/ c \in U16bCases
      \/ c \in {<<"nc", k>> : k \in NcCounts}
      \/ c \in LocaCases
